@@ -6,6 +6,9 @@ import json, os, subprocess, sys, tempfile, xml.etree.ElementTree as ET
 base = json.load(open("/root/.vp/BASELINE.json"))
 out = tempfile.mktemp(suffix=".junit.xml", dir=os.environ.get("VERIF_WORK", "/verif/.work") if os.path.isdir("/verif/.work") else None)
 cmd = base["cmd"].replace("<file>", out)
+repo = os.environ.get("VERIF_REPO")
+if repo:
+    cmd = cmd.replace("cd /repo", f"cd {repo}")
 env = dict(os.environ)
 env.pop("PY_TDGL_VERIF", None)
 extra = sys.argv[1:]
